@@ -120,6 +120,7 @@ func checkC04(c *Ctx) {
 	x.deleteRule()
 	x.table()
 	x.reportFromTable()
+	x.idOpaque()
 }
 
 // newC04ctx discovers the session table, the stream table and the functions around them (nil when an anchor is missing).
@@ -1550,5 +1551,112 @@ func (x *c04ctx) reportFromTable() {
 	}
 	if n == 0 {
 		c.R.Break("R-report-from-table: no exported GetActiveSessions on a server type")
+	}
+}
+
+// ---------------------------------------------------------------- R-id-opaque
+// To the server an incoming Mcp-Session-Id is an opaque key: a request is refused with 400 because the header is
+// missing and with 404 because the table does not know the id — never because of how the id is spelled. The value read
+// from the request header may therefore only be compared with "", handed to the functions that look it up in (or
+// remove it from) the session table, echoed, or logged; a predicate over its characters that controls a branch makes
+// the status of a never-issued id depend on its spelling (and lets a stateless server, which must not look at the
+// header, refuse a request because of it).
+func (x *c04ctx) idOpaque() {
+	c := x.c
+	n := 0
+	for _, fn := range c.P.LibFns {
+		if clientSide(c, fn) {
+			continue
+		}
+		ir.EachInstr(fn, func(_ *ssa.BasicBlock, _ int, in ssa.Instruction) {
+			call, ok := in.(*ssa.Call)
+			if !ok || ir.CallName(call) != "(net/http.Header).Get" || call.Referrers() == nil {
+				return
+			}
+			if k, ok := ir.ConstStr(call.Call.Args[len(call.Call.Args)-1]); !ok || !strings.EqualFold(k, "Mcp-Session-Id") {
+				return
+			}
+			// a request header (r.Header), not the response's
+			if oc := originCall(call.Call.Args[0]); oc != nil && ir.CallName(oc) == "(net/http.ResponseWriter).Header" {
+				return
+			}
+			n++
+			bad := ""
+			seen := map[ssa.Value]bool{}
+			var visit func(f *ssa.Function, v ssa.Value, d int)
+			visit = func(f *ssa.Function, v ssa.Value, d int) {
+				if v.Referrers() == nil || d > 4 || seen[v] || bad != "" {
+					return
+				}
+				seen[v] = true
+				for _, r := range *v.Referrers() {
+					switch y := r.(type) {
+					case *ssa.BinOp:
+						if s, ok := ir.ConstStr(y.X); ok && s == "" {
+							continue
+						}
+						if s, ok := ir.ConstStr(y.Y); ok && s == "" {
+							continue
+						}
+						if y.Op == token.EQL || y.Op == token.NEQ || y.Op == token.LSS || y.Op == token.GTR || y.Op == token.LEQ || y.Op == token.GEQ {
+							// compared with something else than "": with another id (equality with a stored id) is a lookup
+							if _, isConst := y.X.(*ssa.Const); isConst {
+								bad = "compares it with a constant at " + c.Pos(y.Pos())
+							}
+							if _, isConst := y.Y.(*ssa.Const); isConst {
+								bad = "compares it with a constant at " + c.Pos(y.Pos())
+							}
+						}
+					case *ssa.Phi:
+						visit(f, y, d+1)
+					case *ssa.Call:
+						if b, ok := y.Call.Value.(*ssa.Builtin); ok && b.Name() == "len" {
+							// len(id) == 0 is the emptiness test; any other use of the length is about the spelling
+							if y.Referrers() != nil {
+								for _, lr := range *y.Referrers() {
+									if bin, ok := lr.(*ssa.BinOp); ok {
+										if k, ok := ir.ConstInt(bin.Y); !ok || k != 0 {
+											bad = "tests its length at " + c.Pos(bin.Pos())
+										}
+									}
+								}
+							}
+							continue
+						}
+						sc := ir.StaticCallee(y)
+						if sc == nil {
+							if nm := ir.CallName(y); strings.HasPrefix(nm, "strings.") || strings.HasPrefix(nm, "unicode") || strings.HasPrefix(nm, "regexp") || strings.HasPrefix(nm, "(*regexp") {
+								bad = "inspects it with " + nm
+							}
+							continue
+						}
+						if !c.P.IsLib(sc) {
+							if nm := ir.CallName(y); strings.HasPrefix(nm, "strings.") || strings.HasPrefix(nm, "unicode") || strings.HasPrefix(nm, "regexp") || strings.HasPrefix(nm, "(*regexp") || strings.HasPrefix(nm, "strconv.") {
+								bad = "inspects it with " + nm
+							}
+							continue
+						}
+						// a library predicate over the id that does not consult the table
+						if r := sc.Signature.Results(); r.Len() == 1 && ir.TypeStr(r.At(0).Type()) == "bool" && !x.callReaches(y, x.lookers) && !x.callReaches(y, x.deleters) && !x.callReaches(y, x.inserters) {
+							bad = "judges it with the predicate " + fname(sc)
+							continue
+						}
+						for ai, a := range y.Call.Args {
+							if a == v && ai < len(sc.Params) {
+								visit(sc, sc.Params[ai], d+1)
+							}
+						}
+					case *ssa.Index, *ssa.IndexAddr, *ssa.Range, *ssa.Slice:
+						bad = "looks at its characters at " + c.Pos(r.Pos())
+					}
+				}
+			}
+			visit(fn, call, 0)
+			c.R.Check(bad == "", "R-id-opaque", sprintf("incoming session id read in %s", fname(fn)), c.Pos(call.Pos()), "only tested for emptiness, looked up, echoed or logged",
+				sprintf("%s reads the Mcp-Session-Id request header and %s: whether a request with a never-issued id is refused with 404 (unknown session) or something else then depends on how the id is spelled, and a server in stateless mode lets a header it must ignore decide about the request", fname(fn), bad))
+		})
+	}
+	if n < 2 {
+		c.R.Break("R-id-opaque: only %d reads of the Mcp-Session-Id request header found", n)
 	}
 }
